@@ -219,7 +219,38 @@ theorem sound_line9_core {ctx : Ctx} {Mb : Nat} {q : Query} {G : MG Name} (hq : 
     (hcne : c ≠ []) {e9 : Expr} (he : line9 q G c = .ok e9) :
     Good ctx.S e9 ∧ SumND e9 ∧ ∀ σ, denL ctx.M.card ctx.leaf e9 σ =
       sumVars ctx.M.card ((nsort c).filter (· ∉ q.Y)) (ctx.M.Q (nsort c)) σ := by
-  sorry
+  unfold line9 at he
+  split at he
+  · cases he
+  obtain ⟨order, hord, he⟩ := bind_ok he
+  obtain ⟨prod, hprod, he⟩ := bind_ok he
+  obtain ⟨prod', hprod', he⟩ := bind_ok he
+  simp only [pure, Except.pure, Except.ok.injEq] at he
+  subst he
+  have hcR : ∀ v ∈ c, v ∈ regularNodes G := fun v hv =>
+    mem_regularNodes.2 ⟨mem_nodes_of_mem_district hq.wfG hd ((hdc v).2 hv), hcT v hv⟩
+  obtain ⟨gp, np, shp, vp⟩ := TrsoAux.line9_fold hq h hord (nsort c) .one prod ⟨trivial, trivial⟩ trivial
+    (Or.inl rfl) hprod
+  have hfc : FracClean prod := by
+    rcases shp with ⟨h0, _⟩ | hfc
+    · exact absurd h0 (nsort_nonempty hcne)
+    · exact hfc
+  obtain ⟨n, d, rfl, _, _⟩ := hfc
+  have gn : Good ctx.S n := ⟨gp.1.1, gp.2.1⟩
+  have gd : Good ctx.S d := ⟨gp.1.2, gp.2.2⟩
+  have gp' : Good ctx.S prod' := good_fracSimplify ctx.S gn gd hprod'
+  have np' : SumND prod' := sumND_simplifyCast np hprod'
+  have vp' : (fun τ => denL ctx.M.card ctx.leaf prod' τ) = ctx.M.Q (nsort c) := by
+    funext τ
+    rw [denL_simplifyCast_frac ctx.S gn gd hprod' τ, ← TrsoAux.denL_frac, vp τ, TrsoAux.denL_one, one_mul]
+    exact TrsoAux.tian_prod hq h hord hd (nsort_nodup' c) (fun v => by rw [mem_nsort, hdc v])
+      (fun v hv => hcT v ((mem_nsort v c).1 hv)) τ
+  have hns : ∀ n ∈ diff' c q.Y, n ∈ regularNodes G := fun n hn => hcR n (mem_diff'.1 hn).1
+  refine ⟨good_sumSafe ctx.S false gp' (h.rng hns), sumND_sumSafe false np', fun σ => ?_⟩
+  rw [denL_sumSafe_false, vp',
+    sumVars_plainVars_set ctx.M.card (fun n hn => regular_notT (hns n hn))
+      (xs := (nsort c).filter (· ∉ q.Y)) ((nsort_nodup' c).filter _)
+      (fun v => by simp [mem_diff', List.mem_filter, mem_nsort])]
 
 /-- **line 10**: the expression carried into the recursion on the district `c'` denotes `Q[c']`; its leaves have one
 child name each; when the carried expression was not a joint the ratio branch was taken -/
